@@ -1,0 +1,45 @@
+//go:build verif
+
+package blockstream
+
+import (
+	pbbstream "github.com/streamingfast/bstream/pb/sf/bstream/v1"
+)
+
+// Verif* give the external verification harness deterministic access to the unexported
+// subscription machinery. Only compiled with the `verif` build tag.
+
+type VerifSub struct{ s *subscription }
+
+func (s *Server) VerifSubscribe(burst int) *VerifSub {
+	sub := s.subscribe(burst, "verif")
+	if sub == nil {
+		return nil
+	}
+	return &VerifSub{sub}
+}
+
+func (s *Server) VerifUnsubscribe(v *VerifSub) { s.unsubscribe(v.s) }
+
+func (v *VerifSub) Cap() int { return cap(v.s.incomingBlock) }
+
+// TryRecv is a non-blocking receive: (block, open, empty).
+func (v *VerifSub) TryRecv() (*pbbstream.Block, bool, bool) {
+	select {
+	case b, ok := <-v.s.incomingBlock:
+		return b, ok, false
+	default:
+		return nil, true, true
+	}
+}
+
+func (s *Server) VerifBufferIDs() []string {
+	if s.buffer == nil {
+		return nil
+	}
+	var out []string
+	for _, b := range s.buffer.AllBlocks() {
+		out = append(out, b.Id)
+	}
+	return out
+}
